@@ -83,6 +83,20 @@ func panicSite(stack string) string {
 	return "?"
 }
 
+// internalErrorSite names the function that created an internal error (first
+// cadence frame outside the errors package on the recorded stack).
+func internalErrorSite(stack string) string {
+	for _, l := range strings.Split(stack, "\n") {
+		if strings.HasPrefix(l, "\t") {
+			continue
+		}
+		if m := frameRe.FindStringSubmatch(l); m != nil && !strings.HasPrefix(m[1], "errors.") {
+			return m[1]
+		}
+	}
+	return "?"
+}
+
 func panicKind(v any) string {
 	switch x := v.(type) {
 	case runtime.Error:
@@ -139,34 +153,46 @@ func lexTokens(ts lexer.TokenStream, limit int) []lexer.Token {
 func judgeTokens(input []byte, toks []lexer.Token, lexErr error) (fs []c37Finding, dontCare int, class string) {
 	n := len(input)
 	nl := bytes.Count(input, []byte{'\n'})
-	// incremental line / column bookkeeping at increasing offsets
-	curOff, curLine, lineStart := 0, 1, 0
-	runeColAt := func(off int) int { return utf8.RuneCount(input[lineStart:off]) }
+	// incremental line / column bookkeeping at increasing offsets. Runes are
+	// delimited as utf8.DecodeRune does (an invalid byte is a rune of width 1);
+	// the rune column of an offset is the index, within its line, of the rune
+	// that contains that byte.
+	curLine, lineStart := 1, 0
+	runeStart, runeCol := 0, 0 // the rune containing the cursor and its column
 	advance := func(off int) {
-		for curOff < off && curOff < n {
-			if input[curOff] == '\n' {
-				curLine++
-				lineStart = curOff + 1
+		for runeStart < n {
+			_, w := utf8.DecodeRune(input[runeStart:])
+			if w <= 0 {
+				w = 1
 			}
-			curOff++
+			if off < runeStart+w {
+				return
+			}
+			if input[runeStart] == '\n' {
+				curLine++
+				lineStart = runeStart + 1
+				runeCol = 0
+			} else {
+				runeCol++
+			}
+			runeStart += w
 		}
 	}
 	byteOK, runeOK := true, true
 	var firstColBad string
+	lastChecked := -1
 	checkPos := func(p ast.Position, what string) {
-		if p.Offset < curOff {
-			return // non-monotone positions are reported by the contiguity clause
+		if p.Offset < lastChecked || p.Offset > n {
+			return // non-monotone / out-of-range positions are reported by the other clauses
 		}
+		lastChecked = p.Offset
 		advance(p.Offset)
-		if p.Offset > n {
-			return
-		}
 		if p.Line != curLine {
 			fs = append(fs, c37Finding{"lex|line-mismatch", fmt.Sprintf("%s at offset %d: line %d, expected %d", what, p.Offset, p.Line, curLine)})
 			return
 		}
 		bc := p.Offset - lineStart
-		rc := runeColAt(p.Offset)
+		rc := runeCol
 		if p.Column != bc {
 			byteOK = false
 		}
@@ -181,10 +207,12 @@ func judgeTokens(input []byte, toks []lexer.Token, lexErr error) (fs []c37Findin
 	sawError := false
 	depth := 0
 	class = "clean"
+	prevType := "start"
 	for i, t := range toks {
 		for _, p := range []ast.Position{t.StartPos, t.EndPos} {
 			if r := posInRange(p, n, nl); r != "" {
-				fs = append(fs, c37Finding{"lex|token-position-out-of-range|" + r, fmt.Sprintf("token %d (%s) has position %+v, input length %d", i, t.Type, p, n)})
+				fs = append(fs, c37Finding{fmt.Sprintf("lex|token-position-out-of-range|%s|%s after %s", r, t.Type, prevType),
+					fmt.Sprintf("token %d (%s) has position %+v, input length %d", i, t.Type, p, n)})
 			}
 		}
 		switch t.Type {
@@ -202,12 +230,14 @@ func judgeTokens(input []byte, toks []lexer.Token, lexErr error) (fs []c37Findin
 		if t.StartPos.Offset != expect {
 			fs = append(fs, c37Finding{"lex|tokens-not-contiguous", fmt.Sprintf("token %d (%s) starts at offset %d, previous token ended at %d", i, t.Type, t.StartPos.Offset, expect)})
 		}
-		if t.EndPos.Offset < t.StartPos.Offset {
-			fs = append(fs, c37Finding{"lex|token-empty-or-reversed", fmt.Sprintf("token %d (%s) range %d..%d", i, t.Type, t.StartPos.Offset, t.EndPos.Offset)})
+		if t.EndPos.Offset < t.StartPos.Offset-1 {
+			// (end = start-1 is the inclusive-end spelling of an empty token, e.g. the empty string segment after `\(a)` at end of input)
+			fs = append(fs, c37Finding{"lex|token-range-reversed", fmt.Sprintf("token %d (%s) range %d..%d", i, t.Type, t.StartPos.Offset, t.EndPos.Offset)})
 		}
 		checkPos(t.StartPos, fmt.Sprintf("start of token %d (%s)", i, t.Type))
 		checkPos(t.EndPos, fmt.Sprintf("end of token %d (%s)", i, t.Type))
 		expect = t.EndPos.Offset + 1
+		prevType = t.Type.String()
 	}
 	if len(toks) == 0 || toks[len(toks)-1].Type != lexer.TokenEOF {
 		if lexErr == nil {
@@ -224,7 +254,7 @@ func judgeTokens(input []byte, toks []lexer.Token, lexErr error) (fs []c37Findin
 			dontCare++
 			class = "unterminated-comment"
 		default:
-			fs = append(fs, c37Finding{"lex|input-not-covered", fmt.Sprintf("tokens cover [0,%d) of %d bytes and no error token was emitted", expect, n)})
+			fs = append(fs, c37Finding{"lex|input-not-covered|after " + prevType, fmt.Sprintf("tokens cover [0,%d) of %d bytes and no error token was emitted", expect, n)})
 		}
 	}
 	// L2, column convention: bytes (documented) or runes (implemented); the
@@ -288,7 +318,11 @@ type errPositions interface {
 func judgeErrors(stage string, errs []error, n, lines int) (fs []c37Finding) {
 	for _, e := range errs {
 		if cdcerrors.IsInternalError(e) || !cdcerrors.IsUserError(e) {
-			fs = append(fs, c37Finding{stage + "|internal-error:" + fmt.Sprintf("%T", e), fmt.Sprintf("%s reported a non-user error: %s", stage, trunc(e.Error(), 200))})
+			site := "?"
+			if ue, ok := e.(cdcerrors.UnexpectedError); ok {
+				site = internalErrorSite(string(ue.Stack))
+			}
+			fs = append(fs, c37Finding{stage + "|internal-error:" + fmt.Sprintf("%T", e) + "|" + site, fmt.Sprintf("%s reported a non-user error (raised in %s): %s", stage, site, trunc(e.Error(), 200))})
 			continue
 		}
 		var ps []ast.Position
@@ -808,8 +842,7 @@ func freshLex(input []byte) (d []tokDump, lexErr string) {
 
 // poolOnce lexes prev (consuming `consume` tokens, -1 = all), reclaims it, then
 // lexes input and compares with the fresh result.
-func poolOnce(prev, input []byte, consume int) (f *c37Finding, reused bool) {
-	want, wantErr := freshLex(input)
+func poolOnce(prev, input []byte, consume int, want []tokDump, wantErr string) (f *c37Finding, reused bool) {
 	runtime.LockOSThread()
 	defer runtime.UnlockOSThread()
 	ts1, _ := lexer.Lex(prev, nil)
@@ -874,14 +907,26 @@ func runC37(env *mc.Env) {
 		return
 	}
 	thorough := env.Thorough()
+	// development aid: "--sub part:bytes,tokens,edits,ladders,pool" runs only the named parts
+	part := func(name string) bool {
+		if !strings.HasPrefix(env.Sub, "part:") {
+			return true
+		}
+		for _, p := range strings.Split(env.Sub[5:], ",") {
+			if p == name {
+				return true
+			}
+		}
+		return false
+	}
 	report := func(fs []c37Finding, c c37Case, family string) {
 		for _, f := range fs {
-			violation(env, f.sig+"|"+family, c, f.detail)
+			violation(env, f.sig, c, f.detail+" ["+family+"]")
 		}
 	}
 
 	// (a1) all byte strings of length <= 2
-	{
+	if part("bytes") {
 		const total = 1 + 256 + 65536
 		const chunk = 2048
 		mc.ParallelFor(env, (total+chunk-1)/chunk, func(ci int) {
@@ -915,7 +960,7 @@ func runC37(env *mc.Env) {
 	// (a2) all token sequences of length <= 3 over the token alphabet
 	alpha := tokenAlphabet()
 	env.R.Set("token_alphabet", len(alpha))
-	{
+	if part("tokens") {
 		na := len(alpha)
 		maxLen := 3
 		// work items: (first token) x everything after it, plus the short ones
@@ -972,10 +1017,37 @@ func runC37(env *mc.Env) {
 		}
 	}
 
+	// (a3) all sequences of <= 3 tokens over a non-ASCII token alphabet (column bookkeeping)
+	if part("tokens") {
+		mb := []string{"\"é\"", "/*é*/", "/*éa*/", "//é\n", "x", " ", "\"\\(a)é\"", "\"日本\"", "\n", "/*\U0001F600*/"}
+		classes := map[string]int64{}
+		var dc int64
+		run := func(seq string) {
+			in := []byte(seq)
+			fs, class, d := frontOnce(in, fullConfig, true)
+			dc += int64(d)
+			classes["multibyte:"+class]++
+			if len(fs) > 0 {
+				report(fs, c37Case{Kind: "input", Input: in}, "multibyte")
+			}
+			env.R.Nontrivial(seq)
+		}
+		for _, a := range mb {
+			run(a)
+			for _, b := range mb {
+				run(a + b)
+				for _, c := range mb {
+					run(a + b + c)
+				}
+			}
+		}
+		flushClasses(env, classes, dc)
+	}
+
 	// (b) every single edit of every corpus program
 	corpus := editCorpus(thorough)
 	env.R.Set("edit_corpus", len(corpus))
-	{
+	if part("edits") {
 		var alphaB [][]byte
 		for _, a := range alpha {
 			alphaB = append(alphaB, []byte(a))
@@ -1021,7 +1093,7 @@ func runC37(env *mc.Env) {
 	}
 
 	// (c) nesting ladders, in worker subprocesses
-	{
+	if part("ladders") {
 		tier := env.Tier
 		cases := ladderCases(thorough)
 		env.R.Set("ladder_cases", len(cases))
@@ -1048,7 +1120,7 @@ func runC37(env *mc.Env) {
 						env.R.Nontrivial(fmt.Sprintf("%s/%d", c.construct, c.n))
 					}
 					for k, sig := range r.Sigs {
-						violation(env, sig+"|ladder:"+c.construct, c37Case{Kind: "ladder", Construct: c.construct, N: c.n}, fmt.Sprintf("%s n=%d: %s", c.construct, c.n, r.Details[k]))
+						violation(env, sig, c37Case{Kind: "ladder", Construct: c.construct, N: c.n}, fmt.Sprintf("ladder %s n=%d: %s", c.construct, c.n, r.Details[k]))
 					}
 				}
 				if err != nil {
@@ -1071,29 +1143,34 @@ func runC37(env *mc.Env) {
 	}
 
 	// (d) lexer-pool histories: all ordered pairs, prev fully / partly consumed
-	{
+	if part("pool") {
 		ins := poolInputs()
 		env.R.Set("pool_inputs", len(ins))
 		classes := map[string]int64{}
 		var reusedN int64
+		fresh := make([][]tokDump, len(ins))
+		freshErr := make([]string, len(ins))
+		for i, b := range ins {
+			fresh[i], freshErr[i] = freshLex(b)
+		}
 		for _, a := range ins {
-			for _, b := range ins {
+			for bi, b := range ins {
 				for _, consume := range []int{-1, 0, 1, 2} {
-					f, reused := poolOnce(a, b, consume)
+					f, reused := poolOnce(a, b, consume, fresh[bi], freshErr[bi])
 					if reused {
 						reusedN++
 						env.R.Nontrivial(fmt.Sprintf("pool|%q|%q|%d", a, b, consume))
 					}
 					classes["pool:compared"]++
 					if f != nil {
-						violation(env, f.sig+"|pool", c37Case{Kind: "pool", Prev: a, Input: b, Consume: consume}, f.detail)
+						violation(env, f.sig, c37Case{Kind: "pool", Prev: a, Input: b, Consume: consume}, f.detail)
 					}
 				}
 				// parser level: parse b after parsing a equals a fresh parse of b
 				want := parseDump(b)
 				parseDump(a)
 				if got := parseDump(b); got != want {
-					violation(env, "parse|history-dependent|pool", c37Case{Kind: "pool", Prev: a, Input: b, Consume: -2},
+					violation(env, "parse|history-dependent", c37Case{Kind: "pool", Prev: a, Input: b, Consume: -2},
 						fmt.Sprintf("parsing %q after %q differs from parsing it first", b, a))
 				}
 				classes["pool:parse-compared"]++
@@ -1145,7 +1222,8 @@ func replayC37(env *mc.Env, raw json.RawMessage) (bool, string) {
 			parseDump(c.Prev)
 			return parseDump(c.Input) != want, "parse history"
 		}
-		f, _ := poolOnce(c.Prev, c.Input, c.Consume)
+		want, wantErr := freshLex(c.Input)
+		f, _ := poolOnce(c.Prev, c.Input, c.Consume, want, wantErr)
 		if f != nil {
 			return true, f.detail
 		}
@@ -1180,7 +1258,7 @@ func replayC37(env *mc.Env, raw json.RawMessage) (bool, string) {
 
 func init() {
 	mc.Register(&mc.Check{
-		ID: "C37",
+		ID:   "C37",
 		Rule: "lexer.Lex + parser.ParseProgram (+ sema Checker.Check when the parse succeeds) on (a) every byte string of length <= 2 and every sequence of <= 3 tokens [<= 4 over the 62 non-keyword tokens, thorough] over the full token alphabet (every lexer token type, every keyword, literal / comment / string-template fragments), space-separated and adjacent; (b) every single edit (delete / duplicate / replace-by-each-alphabet-token at every token, truncate at every byte, insert each of {80, C0, FF, ED A0 80, NUL, \\(, /*, \"} at every byte) of every program of the edit corpus; (c) nesting ladders n = 1,2,4..2^14 [2^18] for ~95 nesting / repetition constructs, run in worker subprocesses so that an unrecoverable crash is attributed to its input; (d) all ordered pairs of 36 inputs lexed back-to-back through the pooled lexer (previous stream consumed fully / 0 / 1 / 2 tokens) vs lexed fresh, and parsed back-to-back vs parsed first. Oracle: no panic, only user errors; every token and error position inside the input; tokens contiguous from 0 to len (up to the first error token); token line = 1 + newlines before the offset and column = distance from line start in one convention (bytes or runes) per input; history-independence. non-trivial = input that reached the checker / ladder rungs with n >= 32 / pool pairs where the pooled lexer object was observably reused",
 		Assumptions: []string{
 			"checker run without a standard library (base activations only), access check mode 'not specified unrestricted', native/static declarations allowed",
